@@ -490,7 +490,10 @@ func (b *Blockchain) EventFilter(
 
 // RevertHead reverts the head block
 func (b *Blockchain) RevertHead() error {
-	return b.stateBackend.RevertHead()
+	err := b.stateBackend.RevertHead()
+	// Cached aggregated filters may describe blocks that were just replaced.
+	b.cachedFilters.Reset()
+	return err
 }
 
 func (b *Blockchain) GetReverseStateDiff() (core.StateDiff, error) {
